@@ -60,3 +60,10 @@ claim("C04", "property-based testing: generated ODE networks, differential vs ma
       "grids through py_simulate_model and DeterministicSimulator: exact initial row and time axis, every row within "
       "2e-5 (1+max|x|) of the closed-form / DOP853(1e-11) solution of the reference right-hand side (which includes the "
       "delayed stoichiometry).", _TB + "; scipy's expm and DOP853", "DESIGN.md section 4 C04")
+
+claim("C11", "property-based testing: statistical differential vs volume-scaled master equation + growth/division invariants (Hypothesis)",
+      "(a) 500 / 5000 generated networks (incl. open birth-death families via finite-state projection) x 10k / 40k "
+      "seeded VolumeSSA paths at constant V vs the CME with volume-scaled reference propensities (two-stage chi-square); "
+      "(b) 12k / 200k generated growth/division scenarios for both volume models, with and without noise, including "
+      "models whose total propensity is or becomes zero: prefix-of-grid, truncated => flagged, positivity, monotonicity, "
+      "one-step band around V0 e^{gt}, predicted division step.", _TB, "DESIGN.md section 4 C11")
